@@ -5,6 +5,14 @@ out=os.path.dirname(wt.rstrip("/"))
 for l in open('/verif/properties.jsonl'):
     p=json.loads(l)
     if p['id']==pid: break
+import glob
+prior=[]
+for mf in sorted(glob.glob('/verif/seeded/%s-*/meta.json' % pid)):
+    try:
+        prior.append("  - " + json.load(open(mf))["breaks"][:260])
+    except Exception:
+        pass
+prior_txt = ("\nEarlier rounds already produced the following changes for this property; do NOT repeat them or close variants (same line, same slip) - find different sites and different kinds of slips:\n" + "\n".join(prior) + "\n") if prior else ""
 mech="\n".join(f"  - {m['name']} ({m['where']})" for m in p['anchors']['mechanism'])
 print(f"""You are helping test a verification tool by writing realistic *bug-seeding* patches for the Python library pydrobert-pytorch (speech/ML utilities on PyTorch). Work ONLY inside your own scratch git worktree: {wt} (a checkout of the library; source under {wt}/src/pydrobert/torch, tests under {wt}/tests). Do not touch /repo or /verif, and do not read anything under /verif.
 
@@ -16,6 +24,7 @@ Relevant files: {', '.join(p['anchors']['files'])}
 Mechanisms in the code meant to make it hold:
 {mech}
 
+{prior_txt}
 TASK: produce {n} DIFFERENT, independent source changes (each a separate small patch against the clean worktree) that each BREAK this property while the library still imports and the EXISTING test suite still passes. Each change must be a realistic slip a developer could make (swapped/dropped argument, off-by-one, wrong variable, reordered statements, dropped guard, wrong mode/constant, stale state, ...), NOT something ordinary use would expose at once: it should need something specific to manifest (an unusual input, a particular configuration/flag combination, a multi-step sequence, a crash/fault at a particular point, or two cooperating sites that each look fine alone). Prefer variety: the changes should break different aspects/clauses of the property and touch different functions; look beyond the most obvious line - secondary code paths, option combinations, helper functions, the Module wrappers and command-line drivers named in the statement are all fair game.
 
 For each change i (1..{n}):
